@@ -370,6 +370,7 @@ inductive Shape17 : List Nat → Prop
       (if (StrToNum.netExp false (StrToNum.decVal ks) eneg ys.length).2 then
           (StrToNum.netExp false (StrToNum.decVal ks) eneg ys.length).1 ≤ 1 + ys.length + 324
         else (StrToNum.netExp false (StrToNum.decVal ks) eneg ys.length).1 + (1 + ys.length) ≤ 309) →
+      (eneg = false → ys.length ≤ StrToNum.decVal ks) → (eneg = true → StrToNum.decVal ks ≠ 0) →
       Shape17 (FmtSpec.signed neg ([d1] ++ (if ys = [] then [] else 46 :: ys) ++ 101 :: (if eneg then 45 else 43) :: ks))
 
 theorem Dk_ne_48 {k c' : Nat} (hc : c' % 10 ≠ 0) : Dk (k + 1) c' ≠ [48] := by
@@ -475,15 +476,19 @@ theorem shape_sci (neg : Bool) (K : Nat) (x : Int) (h1 : 10 ^ 16 ≤ K) (h2 : K 
       have hk : x.natAbs ≠ 0 := by omega
       simp only [hn, decide_true, Bool.true_and, Bool.false_or, hk, ne_eq, not_false_eq_true, if_true]
       omega
+  have hpos : ∀ f : Nat, f ≤ 16 → decide (x < 0) = false → f ≤ StrToNum.decVal (FmtSpec.padLeft 2 (D x.natAbs)) := by
+    intro f hf hd; rw [decVal_expDigits]; simp at hd; omega
+  have hnegk : decide (x < 0) = true → StrToNum.decVal (FmtSpec.padLeft 2 (D x.natAbs)) ≠ 0 := by
+    intro hd; rw [decVal_expDigits]; simp at hd; omega
   rcases strip_fixedText_cases K 16 with ⟨_, hs⟩ | ⟨k, c', hc10, hc0, hclt, hkq, hmod, hs⟩
   · rw [hs, hD, hexp]
     have := Shape17.sci neg (48 + K / 10 ^ 16) [] (decide (x < 0)) (FmtSpec.padLeft 2 (D x.natAbs)) hd1
-      (by intro c hc; cases hc) (by simp) (by simp) hks hks0 hkl (hrange 0 (by omega))
+      (by intro c hc; cases hc) (by simp) (by simp) hks hks0 hkl (hrange 0 (by omega)) (hpos 0 (by omega)) hnegk
     simpa using this
   · rw [hs, hD, hexp]
     have := Shape17.sci neg (48 + K / 10 ^ 16) (Dk (k + 1) c') (decide (x < 0)) (FmtSpec.padLeft 2 (D x.natAbs)) hd1
       (allDigits_Dk _ _) (Dk_ne_48 hc10) (by rw [Dk_length]; omega) hks hks0 hkl
-      (by rw [Dk_length]; exact hrange (k + 1) hkq)
+      (by rw [Dk_length]; exact hrange (k + 1) hkq) (by rw [Dk_length]; exact hpos (k + 1) hkq) hnegk
     simpa [Dk_succ_ne_nil] using this
 
 
